@@ -378,10 +378,11 @@ def check_batch_inverse(rep, mod, cfg, sizes):
         if len(S) != 3:
             rep.incomplete('batchInverse:%s' % cfg, 'ext-batch-inverse', site, 'extension mul/inv/copy entry points not found')
             continue
-        for n in sizes:
-            tag = '%s/batchInverse size=%d' % (cfg, n)
+        for n, inplace in [(k, False) for k in sizes] + [(k, True) for k in sizes[:16]]:
+            tag = '%s/batchInverse size=%d%s' % (cfg, n, ' in place (res=src)' if inplace else '')
             try:
-                eff = harness.run_routine(mod, name, S, values={'size': n}, extents={'res': 24 * n, 'src': 24 * n})
+                eff = harness.run_routine(mod, name, S, values={'size': n}, extents={'res': 24 * n, 'src': 24 * n},
+                                          alias={'src': 'res'} if inplace else None)
             except (Incomplete, IRError) as e:
                 rep.incomplete('batchInverse:' + tag, 'ext-batch-inverse', site, str(e))
                 continue
@@ -389,15 +390,16 @@ def check_batch_inverse(rep, mod, cfg, sizes):
                 rep.refute('batchInverse:' + tag, 'ext-batch-inverse', sink_site(e, site), str(e))
                 continue
             bad = []
+            sn = 'res' if inplace else 'src'
             for i in range(n):
                 for j in range(3):
                     v = eff.writes.get(('res', 8 * (3 * i + j)))
-                    if not (isinstance(v, XV) and v.j == j and v.mono == ((('src', i), -1),)):
+                    if not (isinstance(v, XV) and v.j == j and v.mono == (((sn, i), -1),)):
                         bad.append('res[%d] component %d is %r, expected src[%d]^-1' % (i, j, v, i))
             if len(eff.writes) != 3 * n:
                 bad.append('%d cells written, expected %d' % (len(eff.writes), 3 * n))
-            rd = {k for k in eff.reads if k[0] == 'src'}
-            if rd != {('src', 8 * k) for k in range(3 * n)}:
+            rd = {k for k in eff.reads if k[0] == sn}
+            if not inplace and rd != {('src', 8 * k) for k in range(3 * n)}:
                 bad.append('read set of src is not exactly its %d elements' % n)
             if bad:
                 rep.refute('batchInverse:' + tag, 'ext-batch-inverse', site, '; '.join(bad[:3]))
